@@ -337,7 +337,7 @@ def gen_exhaustive():
 # was reported, none is silenced by an oracle exception):
 #   (open-ended link ranges, a float-typed t_column and narrow integer label columns used to be on
 #   this list: repaired in /repo — cc756c2, 80089b8, 3d85c04 — and generated since)
-#   * a user column called `_old_particle`: overwritten and dropped (values not preserved);
+#   (a user column called `_old_particle` used to be on this list too: repaired in /repo, generated since)
 #   * an index NAMED `particle`: `groupby('particle')` is ambiguous -> ValueError;
 #   * negative old labels (-1, ...): reconnect_traj_patch treats `p_old < 0` as "unlabelled" and does
 #     not reconnect such a track at the range's edges.  The statement quantifies over labels "from
@@ -464,7 +464,7 @@ def gen_opts(rng, thorough=False):
     # ---- other columns whose names resemble the ones link_partial uses internally
     if rng.random() < 0.4:
         pool = ["particle_old", "old_particle", "_particle", "particle_new", "index", "level_0", "new",
-                "frame_old", "_old", "mass"]
+                "frame_old", "_old", "mass", "_old_particle", "_old_particle", "__old_particle"]
         o["extra_cols"] = rng.sample(pool, rng.randint(1, 3))
     # ---- index layouts (on top of the ones of gen_table)
     ik = rng.choice(["base"] * 5 + ["str", "float", "negative", "dup_frame", "dup_const", "multi"])
